@@ -4,7 +4,7 @@ set -e
 cd "$(dirname "$0")"
 export CARGO_NET_OFFLINE=true
 (cd engines/mirfacts && cargo +nightly build --release --offline 2>&1 | tail -2)
-(cd engines/specscan && REPO=${REPO:-/repo} ./sync_generator.sh && cargo build --release --offline 2>&1 | tail -2)
 test -x engines/mirfacts/target/release/mirfacts
-test -x engines/specscan/target/release/specscan
+# specscan embeds the generator (a2lmacros/src) of the tree under analysis: it is built per generator version into the cache
+python3 -c "import sys; sys.path.insert(0, '.'); from rules import common; print(common.specscan_bin())"
 echo "setup ok"
